@@ -607,3 +607,40 @@ extern "C" void harness_checksplitowner_innermost() {
   VA(o->owner == expect);
   verif_reach();
 }
+
+#ifndef R2N
+#define R2N 2
+#endif
+// C01/C03 (contour bookkeeping): JoinOutrecPaths(e1, e2) splices the ring of e2 onto the ring of e1 at the tips the two maxima edges
+// own. Rings: pts = front tip, pts->next = back tip, and following next from the back tip walks the polyline to the front tip.
+// Afterwards e1's record holds  ring1 ++ ring2  (e1 front edge: its front tip is continued by ring2)  or  ring2 ++ ring1  (e1 back edge),
+// consistently linked, with the surviving outer edges attached; e2's record is empty and owned by e1's.
+static void mk_ring(OutRec* rec, OutPt** ops, int n, int64_t id0) {
+  for (int i = 0; i < n; ++i) ops[i] = new OutPt(Point64(id0 + i, nd_range(0, 1000)), rec);
+  // polyline order back -> front is ops[0], ops[1], .., ops[n-1]:  next walks it, the front tip's next is the back tip
+  for (int i = 0; i < n; ++i) { ops[i]->next = ops[(i + 1) % n]; ops[i]->prev = ops[(i + n - 1) % n]; }
+  rec->pts = ops[n - 1];
+}
+extern "C" void harness_joinoutrecpaths() {
+  Clipper64& c = *new Clipper64();
+  OutRec* r1 = c.NewOutRec(); OutRec* r2 = c.NewOutRec();
+  OutPt* a[3]; OutPt* b[3]; mk_ring(r1, a, 3, 100); mk_ring(r2, b, R2N, 200);
+  Vertex vtx; LocalMinima lm(&vtx, PathType::Subject, false);
+  Active& f1 = *new Active(); Active& b1 = *new Active(); Active& f2 = *new Active(); Active& b2 = *new Active();
+  f1.local_min = b1.local_min = f2.local_min = b2.local_min = &lm; vtx.flags = VertexFlags::Empty;
+  f1.vertex_top = b1.vertex_top = f2.vertex_top = b2.vertex_top = &vtx;      // closed paths: not an open end
+  f1.outrec = b1.outrec = r1; f2.outrec = b2.outrec = r2; r1->front_edge = &f1; r1->back_edge = &b1; r2->front_edge = &f2; r2->back_edge = &b2;
+  bool e1_front = nondet_bool();
+  Active& e1 = e1_front ? f1 : b1; Active& e2 = e1_front ? b2 : f2;            // the two maxima edges are on opposite sides (AddLocalMaxPoly)
+  c.JoinOutrecPaths(e1, e2);
+  OutPt* exp[6]; int n = 0;
+  if (e1_front) { for (int i = 0; i < 3; ++i) exp[n++] = a[i]; for (int i = 0; i < R2N; ++i) exp[n++] = b[i]; }
+  else { for (int i = 0; i < R2N; ++i) exp[n++] = b[i]; for (int i = 0; i < 3; ++i) exp[n++] = a[i]; }
+  VA(r1->pts == exp[n - 1] && r1->pts->next == exp[0]);
+  for (int i = 0; i < 3 + R2N; ++i) { VA(exp[i]->next == exp[(i + 1) % n]); VA(exp[(i + 1) % n]->prev == exp[i]); }
+  VA(r2->pts == nullptr && r2->front_edge == nullptr && r2->back_edge == nullptr && r2->owner == r1);
+  VA(e1.outrec == nullptr && e2.outrec == nullptr);
+  if (e1_front) VA(r1->front_edge == &f2 && f2.outrec == r1 && r1->back_edge == &b1 && b1.outrec == r1);
+  else VA(r1->back_edge == &b2 && b2.outrec == r1 && r1->front_edge == &f1 && f1.outrec == r1);
+  verif_reach();
+}
